@@ -58,6 +58,53 @@ theorem swapAll_eq (t : List El2) : swapAll t = Spec.swap t := by
     simp only [swapAll, swapElem, ih, Spec.swap, List.map_cons, List.sum_cons]
     simp [Nat.mul_add]
 
+/-- converting copy assignment (`pair<T1,T2> = pair<U1,U2> const&`): the member-wise assignments, each decided by the
+    class and the value category of `p.first` (always an lvalue), equal the whole-object form of [pairs.pair] -/
+theorem convAssignAll_eq (t : List ElX) : convAssignAll t = Spec.convAssign t := by
+  induction t with
+  | nil => rfl
+  | cons e t ih =>
+    obtain ⟨kd, ks, x, y⟩ := e
+    simp only [convAssignAll, ih, Spec.convAssign, List.map_cons, List.sum_cons]
+    cases ks <;> rfl
+
+/-- converting move assignment (`pair<T1,T2> = pair<U1,U2>&&`): assigning `forward<U>(p.first)` member by member - an
+    rvalue of the class unless `U` is a reference - leaves in the source and copies exactly what [pairs.pair] says for
+    the source kind; in particular the referent of a reference element is never moved from -/
+theorem convMoveAssignAll_eq (t : List ElX) : convMoveAssignAll t = Spec.convMoveAssign t := by
+  induction t with
+  | nil => rfl
+  | cons e t ih =>
+    obtain ⟨kd, ks, x, y⟩ := e
+    simp only [convMoveAssignAll, ih, Spec.convMoveAssign, List.map_cons, List.sum_cons]
+    cases ks <;> rfl
+
+/-- when source and destination have the same element kinds the converting copy assignment is the copy assignment -/
+theorem convAssignAll_same (t : List El2) :
+    convAssignAll (t.map fun e => (e.1, e.1, e.2.1, e.2.2)) = assignAll t := by
+  rw [convAssignAll_eq, assignAll_eq]
+  simp [Spec.convAssign, Spec.assign, List.map_map, Function.comp_def]
+
+/-- ... and the converting move assignment is the move assignment -/
+theorem convMoveAssignAll_same (t : List El2) :
+    convMoveAssignAll (t.map fun e => (e.1, e.1, e.2.1, e.2.2)) = moveAssignAll t := by
+  rw [convMoveAssignAll_eq, moveAssignAll_eq]
+  simp [Spec.convMoveAssign, Spec.moveAssign, List.map_map, Function.comp_def]
+
+/-- the referents of reference elements survive a move assignment: whatever the destination kinds, a source element of
+    reference kind holds its value afterwards (the defect repaired in round C20s moved from it) -/
+theorem convMoveAssign_keeps_referents (t : List ElX) (h : ∀ e ∈ t, e.2.1.forwardsRvalue = false) :
+    (convMoveAssignAll t).2.1 = t.map (·.2.2.2) := by
+  rw [convMoveAssignAll_eq]
+  simp only [Spec.convMoveAssign]
+  apply List.map_congr_left
+  intro e he
+  have := h e he
+  obtain ⟨kd, ks, x, y⟩ := e
+  cases ks <;> simp_all [EK.forwardsRvalue, EK.residue]
+
+example : ∀ e ∈ [((EK.trk, EK.tref, 1, 3) : ElX), (.tref, .tcref, 2, 4)], e.2.1.forwardsRvalue = false := by decide
+
 /-- a moved-from source keeps its arity and every copy-only / plain element keeps its value -/
 theorem move_source_length (t : List El) : (moveAll t).2.1.length = t.length := by
   rw [moveAll_eq]; simp [Spec.move]
